@@ -6,6 +6,8 @@ import (
 	"os"
 	"path/filepath"
 	"time"
+
+	"github.com/go-task/task/v3/zverif/vsched"
 )
 
 // Unit is one independently explorable piece of a property check (one scenario x bound).
@@ -20,10 +22,10 @@ type Unit struct {
 	// AllVisible: every hooked operation is a scheduling point (no ownership / read-shared
 	// reduction); affordable for short bodies such as Setup
 	AllVisible bool
-	Shards    int // >1: the DFS tree is split at its first level over this many worker processes
-	Env       bool
-	Check     func(x *Exec) []Violation
-	Goal      func(x *Exec) []string
+	Shards     int // >1: the DFS tree is split at its first level over this many worker processes
+	Env        bool
+	Check      func(x *Exec) []Violation
+	Goal       func(x *Exec) []string
 	// Required goals must each be witnessed by at least one explored execution (exists-style
 	// clauses; decided by vcheck over all shards of the unit, only when exploration was exhaustive)
 	Required []string
@@ -84,10 +86,36 @@ func RunUnit(u *Unit, shard, nshards int, deadline time.Time, boundOverride int)
 	e := &Explorer{Name: u.Name, Bound: bound, Prune: u.Prune && !u.Sc.UsesFS && os.Getenv("VERIF_NOPRUNE") == "", Shard: shard, NShards: nshards,
 		Deadline: deadline, Run: u.Sc.Runner(dir), Check: u.Check, Goal: u.Goal, EnvChoices: u.Env, NoConfirm: u.NoConfirm, AllVisible: u.AllVisible}
 	e.Explore()
+	// Conformance validation (sampling, decides nothing by its silence): the same body with real
+	// goroutines and real primitives; every free-running trace must satisfy the same oracles. A
+	// violation seen only here would mean the controlled world does not over-approximate the
+	// real one within the explored bound.
+	freeRuns, freeViol := 0, 0
+	if n := freeRunCount(); n > 0 && u.Check != nil && !u.Env && e.HarnessErr == "" {
+		for i := 0; i < n; i++ {
+			x := FreeRun(u.Sc, dir)
+			freeRuns++
+			for _, v := range u.Check(x) {
+				if e.sigSeen[v.Sig] > 0 {
+					continue
+				}
+				v.Clause += ":free_run"
+				v.Scenario = u.Name
+				v.Trace = traceLines(x)
+				v.Detail = "observed in a free-running execution (real goroutines), not in the bounded exploration: " + v.Detail
+				e.Violations = append(e.Violations, v)
+				e.sigSeen[v.Sig]++
+				freeViol++
+			}
+		}
+	}
 	if u.Filter != nil {
 		e.Violations = u.Filter(e.Violations)
 	}
 	res := &UnitResult{Unit: u.Name, Stats: e.Stats, Violations: e.Violations, SigCounts: e.SigCounts(), HarnessErr: e.HarnessErr}
+	if freeRuns > 0 {
+		res.Extra = map[string]any{"free_running_validation_runs": freeRuns, "free_running_only_violations": freeViol}
+	}
 	for g := range e.Goals {
 		res.Goals = append(res.Goals, g)
 	}
@@ -219,4 +247,40 @@ func splitComma(s string) []string {
 		out = append(out, cur)
 	}
 	return out
+}
+
+func freeRunCount() int {
+	n := 0
+	fmt.Sscanf(os.Getenv("VERIF_FREE_RUNS"), "%d", &n)
+	return n
+}
+
+// FreeRun executes the scenario body once outside the scheduler (shims delegate to the real
+// primitives, goroutines are real).
+func FreeRun(sc *Scenario, dir string) *Exec {
+	if sc.UsesFS {
+		sc.ResetFS(dir)
+	}
+	x := &Exec{Aux: map[string]string{}, Res: &vsched.Result{}}
+	probe := &Probe{}
+	raw := &RawWriter{}
+	if sc.BodyFn != nil {
+		sc.BodyFn(dir, x, raw)
+	} else {
+		sc.Body(dir, x, probe, raw)()
+	}
+	x.Trace = probe.Trace
+	if sc.Raw || sc.BodyFn != nil {
+		for _, w := range raw.Writes {
+			x.Trace = append(x.Trace, Event{'W', w, 0})
+		}
+	}
+	x.Code = ExitCode(x.Err, sc.Opts.ExitCodeFlag)
+	if x.Err != nil {
+		x.ErrStr = x.Err.Error()
+	}
+	if sc.AfterRun != nil {
+		sc.AfterRun(dir, x)
+	}
+	return x
 }
